@@ -112,20 +112,26 @@ func wrapLinkedHashMap[K comparable, V comparable](t *linkedhashmap.Map[K, V]) *
 }
 
 type KVSys[K comparable, V comparable] struct {
-	Kind   string // rbt avl btree treemap treebidimap hashmap linkedhashmap hashbidimap
-	Order  int    // btree order
-	CmpN   string // nat | rev | coarse  (key side)
-	VCmpN  string // value side for treebidimap
-	N      int    // live bound
-	Rank   bool   // rank-abstract keys (K must be Key)
-	KU     []K    // fixed key universe
-	VU     []V    // fixed value universe (nil: fresh values)
-	Fresh  func(i int) V
-	KCmp   func(a, b K) int // comparator semantics on K (for hash containers: identity classes)
-	VCmp   func(a, b V) int
-	Probes func(live []K) []K // extra probe keys for fixed universes (nil: the universe)
-	PropsL []string
+	Kind    string // rbt avl btree treemap treebidimap hashmap linkedhashmap hashbidimap
+	Order   int    // btree order
+	CmpN    string // nat | rev | coarse  (key side)
+	VCmpN   string // value side for treebidimap
+	N       int    // live bound
+	Rank    bool   // rank-abstract keys (K must be Key)
+	KU      []K    // fixed key universe
+	VU      []V    // fixed value universe (nil: fresh values)
+	Fresh   func(i int) V
+	KCmp    func(a, b K) int // comparator semantics on K (for hash containers: identity classes)
+	VCmp    func(a, b V) int
+	Probes  func(live []K) []K // extra probe keys for fixed universes (nil: the universe)
+	PropsL  []string
 	NoCount bool // do not count comparator calls (pure comparators for the concurrent passes)
+	// Custom overrides how the real container is constructed (default constructors New[K cmp.Ordered]()).
+	Custom func(b *kvBox[K, V]) *kvAPI[K, V]
+	Label  string
+	// Lite (rank mode, high B-tree orders): the alphabet is reduced to the positions
+	// {first, second, middle, last-but-one, last}; the per-state probes stay complete.
+	Lite bool
 }
 
 func (s *KVSys[K, V]) Name() string {
@@ -140,7 +146,7 @@ func (s *KVSys[K, V]) Name() string {
 	if s.Rank {
 		n += "/rank"
 	}
-	return n
+	return n + s.Label
 }
 func (s *KVSys[K, V]) Props() []string { return s.PropsL }
 
@@ -155,12 +161,12 @@ func (s *KVSys[K, V]) linked() bool { return s.Kind == "linkedhashmap" }
 func (s *KVSys[K, V]) bidi() bool   { return s.Kind == "treebidimap" || s.Kind == "hashbidimap" }
 
 type kvBox[K comparable, V comparable] struct {
-	sys    *KVSys[K, V]
-	a      *kvAPI[K, V]
-	ref    []kvEnt[K, V] // ordered containers: comparator order; linked: insertion order; hash: any
-	calls  int           // comparator calls (both comparators)
-	nextV  int
-	nextR  int
+	sys   *KVSys[K, V]
+	a     *kvAPI[K, V]
+	ref   []kvEnt[K, V] // ordered containers: comparator order; linked: insertion order; hash: any
+	calls int           // comparator calls (both comparators)
+	nextV int
+	nextR int
 }
 
 // comparators given to the container count their calls (only when the system asks for
@@ -200,91 +206,16 @@ func btBound(m int) func(n int) float64 {
 }
 
 func (s *KVSys[K, V]) api(b *kvBox[K, V]) *kvAPI[K, V] {
+	if s.Custom != nil {
+		return s.Custom(b)
+	}
 	switch s.Kind {
 	case "rbt":
-		t := redblacktree.NewWith[K, V](b.kc())
-		nk := func(n *redblacktree.Node[K, V], ok bool) (K, V, bool) {
-			if n == nil || !ok {
-				var k K
-				var v V
-				if ok != (n != nil) {
-					panic(fmt.Sprintf("Floor/Ceiling returned node=%v found=%v", n, ok))
-				}
-				return k, v, false
-			}
-			return n.Key, n.Value, true
-		}
-		return &kvAPI[K, V]{obj: t, name: "RedBlackTree", put: t.Put, get: t.Get, remove: t.Remove, clear: t.Clear, size: t.Size,
-			empty: t.Empty, keys: t.Keys, values: t.Values, str: t.String,
-			min:     func() (K, V, bool) { n := t.Left(); return nk(n, n != nil) },
-			max:     func() (K, V, bool) { n := t.Right(); return nk(n, n != nil) },
-			floor:   func(k K) (K, V, bool) { return nk(t.Floor(k)) },
-			ceiling: func(k K) (K, V, bool) { return nk(t.Ceiling(k)) },
-			iter:    func() *IterDyn { return keyIterRev[K, V](t.Iterator()) },
-			walk:    func() []kvEnt[K, V] { return rbtWalk(t.Root, nil) },
-			shape:   func() *Viol { return rbtShape(t) },
-			extras:  func(bx any) *Viol { return rbtExtras(t, bx.(*kvBox[K, V])) },
-			bound:   rbBound, putMul: 1, remMul: 1}
+		return wrapRBT(redblacktree.NewWith[K, V](b.kc()))
 	case "avl":
-		t := avltree.NewWith[K, V](b.kc())
-		nk := func(n *avltree.Node[K, V], ok bool) (K, V, bool) {
-			if n == nil || !ok {
-				var k K
-				var v V
-				if ok != (n != nil) {
-					panic(fmt.Sprintf("Floor/Ceiling returned node=%v found=%v", n, ok))
-				}
-				return k, v, false
-			}
-			return n.Key, n.Value, true
-		}
-		return &kvAPI[K, V]{obj: t, name: "AVLTree", put: t.Put, get: t.Get, remove: t.Remove, clear: t.Clear, size: t.Size,
-			empty: t.Empty, keys: t.Keys, values: t.Values, str: t.String,
-			min:     func() (K, V, bool) { n := t.Left(); return nk(n, n != nil) },
-			max:     func() (K, V, bool) { n := t.Right(); return nk(n, n != nil) },
-			floor:   func(k K) (K, V, bool) { return nk(t.Floor(k)) },
-			ceiling: func(k K) (K, V, bool) { return nk(t.Ceiling(k)) },
-			iter:    func() *IterDyn { return keyIterRev[K, V](t.Iterator()) },
-			walk:    func() []kvEnt[K, V] { return avlWalk(t.Root, nil) },
-			shape:   func() *Viol { return avlShape(t) },
-			extras:  func(bx any) *Viol { return avlExtras(t, bx.(*kvBox[K, V])) },
-			bound:   avlBound, putMul: 1, remMul: 1}
+		return wrapAVL(avltree.NewWith[K, V](b.kc()))
 	case "btree":
-		t := btree.NewWith[K, V](s.Order, b.kc())
-		entryT := reflect.TypeOf([]*btree.Entry[K, V]{})
-		childT := reflect.TypeOf([]*btree.Node[K, V]{})
-		return &kvAPI[K, V]{obj: t, name: "BTree", put: t.Put, get: t.Get, remove: t.Remove, clear: t.Clear, size: t.Size,
-			empty: t.Empty, keys: t.Keys, values: t.Values, str: t.String,
-			opts: CanonOpts{DropCap: func(tp reflect.Type) bool { return tp == entryT || tp == childT }},
-			min: func() (K, V, bool) {
-				k, v := t.LeftKey(), t.LeftValue()
-				if k == nil || v == nil {
-					var zk K
-					var zv V
-					if (k == nil) != (v == nil) {
-						panic("LeftKey/LeftValue disagree about emptiness")
-					}
-					return zk, zv, false
-				}
-				return k.(K), v.(V), true
-			},
-			max: func() (K, V, bool) {
-				k, v := t.RightKey(), t.RightValue()
-				if k == nil || v == nil {
-					var zk K
-					var zv V
-					if (k == nil) != (v == nil) {
-						panic("RightKey/RightValue disagree about emptiness")
-					}
-					return zk, zv, false
-				}
-				return k.(K), v.(V), true
-			},
-			iter:  func() *IterDyn { return keyIterRev[K, V](t.Iterator()) },
-			walk:  func() []kvEnt[K, V] { return btWalk(t.Root, nil) },
-			shape: func() *Viol { return btShape(t, s.Order) },
-			extras: func(bx any) *Viol { return btExtras(t, bx.(*kvBox[K, V])) },
-			bound: btBound(s.Order), putMul: 1, remMul: 1}
+		return wrapBT(btree.NewWith[K, V](s.Order, b.kc()), s.Order)
 	case "treemap":
 		return wrapTreeMap(treemap.NewWith[K, V](b.kc()))
 	case "treebidimap":
@@ -310,6 +241,85 @@ func (s *KVSys[K, V]) api(b *kvBox[K, V]) *kvAPI[K, V] {
 			empty: t.Empty, keys: t.Keys, values: t.Values, str: t.String, getKey: t.GetKey}
 	}
 	panic("kv kind " + s.Kind)
+}
+
+func wrapRBT[K comparable, V comparable](t *redblacktree.Tree[K, V]) *kvAPI[K, V] {
+	nk := func(n *redblacktree.Node[K, V], ok bool) (K, V, bool) {
+		if n == nil || !ok {
+			var k K
+			var v V
+			// (node, found) disagreeing with each other is reported through the comparison with
+			// the reference: found without a node reads as an unexpected hit
+			return k, v, ok
+		}
+		return n.Key, n.Value, true
+	}
+	return &kvAPI[K, V]{obj: t, name: "RedBlackTree", put: t.Put, get: t.Get, remove: t.Remove, clear: t.Clear, size: t.Size,
+		empty: t.Empty, keys: t.Keys, values: t.Values, str: t.String,
+		min:     func() (K, V, bool) { n := t.Left(); return nk(n, n != nil) },
+		max:     func() (K, V, bool) { n := t.Right(); return nk(n, n != nil) },
+		floor:   func(k K) (K, V, bool) { return nk(t.Floor(k)) },
+		ceiling: func(k K) (K, V, bool) { return nk(t.Ceiling(k)) },
+		iter:    func() *IterDyn { return keyIterRev[K, V](t.Iterator()) },
+		walk:    func() []kvEnt[K, V] { return rbtWalk(t.Root, nil) },
+		shape:   func() *Viol { return rbtShape(t) },
+		extras:  func(bx any) *Viol { return rbtExtras(t, bx.(*kvBox[K, V])) },
+		bound:   rbBound, putMul: 1, remMul: 1}
+}
+
+func wrapAVL[K comparable, V comparable](t *avltree.Tree[K, V]) *kvAPI[K, V] {
+	nk := func(n *avltree.Node[K, V], ok bool) (K, V, bool) {
+		if n == nil || !ok {
+			var k K
+			var v V
+			// (node, found) disagreeing with each other is reported through the comparison with
+			// the reference: found without a node reads as an unexpected hit
+			return k, v, ok
+		}
+		return n.Key, n.Value, true
+	}
+	return &kvAPI[K, V]{obj: t, name: "AVLTree", put: t.Put, get: t.Get, remove: t.Remove, clear: t.Clear, size: t.Size,
+		empty: t.Empty, keys: t.Keys, values: t.Values, str: t.String,
+		min:     func() (K, V, bool) { n := t.Left(); return nk(n, n != nil) },
+		max:     func() (K, V, bool) { n := t.Right(); return nk(n, n != nil) },
+		floor:   func(k K) (K, V, bool) { return nk(t.Floor(k)) },
+		ceiling: func(k K) (K, V, bool) { return nk(t.Ceiling(k)) },
+		iter:    func() *IterDyn { return keyIterRev[K, V](t.Iterator()) },
+		walk:    func() []kvEnt[K, V] { return avlWalk(t.Root, nil) },
+		shape:   func() *Viol { return avlShape(t) },
+		extras:  func(bx any) *Viol { return avlExtras(t, bx.(*kvBox[K, V])) },
+		bound:   avlBound, putMul: 1, remMul: 1}
+}
+
+func wrapBT[K comparable, V comparable](t *btree.Tree[K, V], order int) *kvAPI[K, V] {
+	entryT := reflect.TypeOf([]*btree.Entry[K, V]{})
+	childT := reflect.TypeOf([]*btree.Node[K, V]{})
+	return &kvAPI[K, V]{obj: t, name: "BTree", put: t.Put, get: t.Get, remove: t.Remove, clear: t.Clear, size: t.Size,
+		empty: t.Empty, keys: t.Keys, values: t.Values, str: t.String,
+		opts: CanonOpts{DropCap: func(tp reflect.Type) bool { return tp == entryT || tp == childT }},
+		min: func() (K, V, bool) {
+			k, v := t.LeftKey(), t.LeftValue()
+			if k == nil || v == nil {
+				var zk K
+				var zv V
+				return zk, zv, false
+			}
+			return k.(K), v.(V), true
+		},
+		max: func() (K, V, bool) {
+			k, v := t.RightKey(), t.RightValue()
+			if k == nil || v == nil {
+				var zk K
+				var zv V
+				return zk, zv, false
+			}
+			return k.(K), v.(V), true
+		},
+		iter:   func() *IterDyn { return keyIterRev[K, V](t.Iterator()) },
+		walk:   func() []kvEnt[K, V] { return btWalk(t.Root, nil) },
+		shape:  func() *Viol { return btShape(t, order) },
+		extras: func(bx any) *Viol { return btExtras(t, bx.(*kvBox[K, V])) },
+		bound:  btBound(order), putMul: 1, remMul: 1}
 }
 
 // ---- exported-structure walks and shape invariants ----------------------------
@@ -714,6 +724,33 @@ func (b *kvBox[K, V]) Ops() []Op {
 	var ops []Op
 	n := len(b.ref)
 	s := b.sys
+	if s.Rank && s.Lite {
+		pos := func(max int) []int { // distinct positions in 0..max
+			seen := map[int]bool{}
+			var r []int
+			for _, p := range []int{0, 1, max / 2, max - 1, max} {
+				if p >= 0 && p <= max && !seen[p] {
+					seen[p] = true
+					r = append(r, p)
+				}
+			}
+			return r
+		}
+		if n < s.N {
+			for _, g := range pos(n) {
+				ops = append(ops, op("ins", g))
+			}
+		}
+		if n > 0 {
+			for _, r := range pos(n - 1) {
+				ops = append(ops, op("upd", r), op("del", r))
+			}
+		}
+		for _, g := range pos(n) {
+			ops = append(ops, op("delAbsent", g))
+		}
+		return append(ops, op("clear"))
+	}
 	if s.Rank {
 		if n < s.N {
 			for g := 0; g <= n; g++ {
